@@ -75,6 +75,8 @@ type Scenario struct {
 	Steps []Step `json:"steps"`
 	// random mode: the harness chooses operations and schedule itself
 	Random *RandomSpec `json:"random,omitempty"`
+	// stress mode: free-running goroutines, no gate
+	Stress *StressSpec `json:"stress,omitempty"`
 }
 
 type RandomSpec struct {
@@ -669,17 +671,22 @@ func (w *world) setup(init State) error {
 			}
 		}
 	}
-	// distinct access times, oldest first in rank order
+	// distinct access times, oldest first in rank order; the first Nold
+	// pieces were last accessed more than two hours ago
+	if init.Nold > 0 {
+		mono.VerifAdvance(9000 * time.Second)
+	}
 	now := mono.Now()
 	for pos, i := range init.Rank {
-		w.ps.VerifSetTime(uint32(i), now-mono.Time(len(init.Rank)-pos))
+		age := len(init.Rank) - pos
+		if pos < init.Nold {
+			age += 8000
+		}
+		w.ps.VerifSetTime(uint32(i), now-mono.Time(age))
 	}
 	mono.VerifAdvance(time.Second)
 	w.rank = append([]int{}, init.Rank...)
 	w.nold = init.Nold
-	if init.Nold > 0 {
-		return fmt.Errorf("setup: initial nold > 0 unsupported")
-	}
 	return nil
 }
 
@@ -834,6 +841,9 @@ func Replay(in []byte) any {
 	}
 	if sc.Random != nil {
 		return randomRun(&sc)
+	}
+	if sc.Stress != nil {
+		return stressRun(&sc)
 	}
 	out := &Out{ID: sc.ID}
 	nch := nchOf(sc.Init)
